@@ -43,6 +43,6 @@ def main(tier, replay=None):
                {"NeverNegative", "WaitersOnlyIfNonZero", "QueuedAreWaiting", "NoStuck"}, {"O-lin", "O-ret", "O-prog"})
     # integration: the same programs with the real mu.c underneath, random schedules, oracles only
     exer = build("h_l2r")
-    random_runs(run, exer, "Counter", cfgs, 300 if tier == "quick" else 5000, "C10", {"O-lin", "O-ret", "O-prog"})
+    random_runs(run, exer, "Counter", cfgs, 300 if tier == "quick" else 60000, "C10", {"O-lin", "O-ret", "O-prog"})
     run.cov.setdefault("conformant", True)
     return run.finish()
